@@ -7,6 +7,9 @@ from vlib import Broken, log
 ALLCFG = "mem:ondemand:none,mem:preload:none,memdb:ondemand:none,memdb:preload:none,big:ondemand:none,big:preload:none"
 
 
+AMBCFG = "mem:ondemand:none,memdb:preload:none,big:ondemand:none"
+
+
 def _gen_replay(ctx, sel, maxrows, depth2, maxgb, unique, what, reopen=False, configs=ALLCFG):
     cfg = ctx.cfg_variant("Gen_Lib.cfg", dict(MaxRows=maxrows, Depth2=depth2, MaxGB=maxgb,
                                               WithUnique=unique, GenSel='"%s"' % sel))
@@ -18,6 +21,9 @@ def _gen_replay(ctx, sel, maxrows, depth2, maxgb, unique, what, reopen=False, co
     if reopen:
         args.append("-reopen")
     rep = ctx.run_replay("replay-lib", args, what)
+    # second pass with the adversarial dictionary (prefix column names, values making up the difference)
+    args2 = ["-in", path, "-seed", str(ctx.seed), "-configs", AMBCFG, "-dict", "ambiguous"] + (["-reopen"] if reopen else [])
+    ctx.run_replay("replay-lib", args2, what + "-ambiguous-dict")
     os.remove(path)
     return rep
 
